@@ -2,7 +2,7 @@
     the refinement invariant: after any history, every token sampled for a request was computed from exactly the
     reference window of that request. *)
 From Coq Require Import List ZArith NArith Bool Arith Lia ZifyBool ZifyNat.
-From V Require Import Common.Bytes Runner.Stop Slots.Model Slots.ProofsKv Slots.ProofsSlots Slots.ProofsBatch.
+From V Require Import Common.Bytes Slots.StopFns Slots.Model Slots.ProofsKv Slots.ProofsSlots Slots.ProofsBatch.
 Import ListNotations.
 Open Scope Z_scope.
 
@@ -46,7 +46,7 @@ Section Ref.
 
   (** * projections of the ghost log *)
   Definition req_of (e : event) : nat :=
-    match e with EvSubmit r _ _ => r | EvSample r _ _ => r | EvDone r _ => r end.
+    match e with EvSubmit r _ _ _ _ => r | EvSample r _ _ => r | EvDone r _ => r end.
   Fixpoint samples_of (r : nat) (l : list event) : list (tok * list (Z * tok)) :=
     match l with
     | [] => []
@@ -68,19 +68,20 @@ Section Ref.
 
   (** every sample recorded for a submitted request is the reference's *)
   Definition log_ok (l : list event) : Prop :=
-    forall r W0 keep, In (EvSubmit r W0 keep) l ->
+    forall r W0 keep np sp, In (EvSubmit r W0 keep np sp) l ->
       forall j t vis, nth_error (samples_of r l) j = Some (t, vis) ->
         vis = enumerate 0 (ref_win keep W0 j) /\ t = F vis.
   (** request ids are unique and below the counter *)
   Definition log_ids (l : list event) (n : nat) : Prop :=
     (forall e, In e l -> (req_of e < n)%nat) /\
-    (forall r W0 keep W0' keep', In (EvSubmit r W0 keep) l -> In (EvSubmit r W0' keep') l -> W0 = W0' /\ keep = keep').
+    (forall r W0 keep np sp W0' keep' np' sp', In (EvSubmit r W0 keep np sp) l -> In (EvSubmit r W0' keep' np' sp') l ->
+       W0 = W0' /\ keep = keep' /\ np = np' /\ sp = sp').
 
   (** * the refinement relation of one live sequence *)
   Definition nsamples (r : nat) (l : list event) : nat := length (samples_of r l).
 
   Definition seq_ref_w (l : list event) (C : list tok) (q : seqst) (W0 : list tok) : Prop :=
-    In (EvSubmit (q_req q) W0 (q_keep q)) l /\ zlen W0 <= numCtx cfg /\
+    In (EvSubmit (q_req q) W0 (q_keep q) (q_npredict q) (q_stops q)) l /\ zlen W0 <= numCtx cfg /\
       let W := ref_win (q_keep q) W0 (nsamples (q_req q) l) in
       (C ++ q_pending q ++ q_inputs q = W \/
        (q_pending q = [] /\ exists t, q_inputs q = [t] /\ numCtx cfg < zlen C + 1 /\
@@ -368,7 +369,7 @@ Section Ref.
     rewrite firstn_all2; [reflexivity|]. unfold zlen. lia.
   Qed.
 
-  Definition no_submit (ev : list event) : Prop := forall e, In e ev -> match e with EvSubmit _ _ _ => False | _ => True end.
+  Definition no_submit (ev : list event) : Prop := forall e, In e ev -> match e with EvSubmit _ _ _ _ _ => False | _ => True end.
 
   Lemma post_one2 kv' b s q l W0 :
     view kv' (q_slot q) = enumerate 0 (s_inputs s ++ q_pending q) ->
@@ -507,7 +508,7 @@ Section Ref.
   Lemma log_ok_ext l ext :
     log_ok l -> (forall r, samples_of r ext = []) -> no_submit ext -> log_ok (l ++ ext).
   Proof.
-    intros Hok Hs Hn r W0 keep Hin j t vis Hj.
+    intros Hok Hs Hn r W0 keep np sp Hin j t vis Hj.
     apply in_app_or in Hin as [Hin|Hin]; [|exfalso; apply (Hn _ Hin)].
     rewrite samples_of_app, Hs, app_nil_r in Hj. eapply Hok; eauto.
   Qed.
@@ -517,7 +518,7 @@ Section Ref.
   Proof.
     intros [H1 H2] Hr Hn. split.
     - intros e He. apply in_app_or in He as [He|He]; auto.
-    - intros r W0 keep W0' keep' A B.
+    - intros r W0 keep np sp W0' keep' np' sp' A B.
       apply in_app_or in A as [A|A]; [|exfalso; apply (Hn _ A)].
       apply in_app_or in B as [B|B]; [|exfalso; apply (Hn _ B)]. eapply H2; eauto.
   Qed.
@@ -599,7 +600,7 @@ Section Ref.
           destruct X1 as (_ & _ & _ & X1), X2 as (_ & _ & _ & X2). destruct (X1 q1 eq_refl) as [R1 _], (X2 q2 eq_refl) as [R2 _].
           eapply Hureq; eauto. congruence.
       + (* every recorded sample is the reference's *)
-        intros r W0 keep Hsub j t vis Hj.
+        intros r W0 keep np0 sp0 Hsub j t vis Hj.
         apply in_app_or in Hsub as [Hsub|Hsub]; [|exfalso; apply (Hevns _ Hsub)].
         rewrite samples_of_app in Hj.
         destruct (Nat.lt_ge_cases j (length (samples_of r (p_log p)))) as [Hlt|Hge].
@@ -615,7 +616,7 @@ Section Ref.
           -- destruct (j - length (samples_of (q_req q) (p_log p)))%nat; discriminate.
           -- destruct (j - length (samples_of (q_req q) (p_log p)))%nat as [|d] eqn:Ed; [|destruct d; discriminate].
              cbn in Hj. injection Hj as <- <-.
-             destruct Hw as (Hsubq & _ & _). destruct Hlidp as [_ Huniq]. destruct (Huniq _ _ _ _ _ Hsub Hsubq) as [-> ->].
+             destruct Hw as (Hsubq & _ & _). destruct Hlidp as [_ Huniq]. destruct (Huniq _ _ _ _ _ _ _ _ _ Hsub Hsubq) as (-> & -> & _ & _).
              replace j with (nsamples (q_req q) (p_log p)) by (unfold nsamples; lia). auto.
       + apply log_ids_ext; auto.
         intros e He. destruct (Hevreq e He) as (k & q & G & ->). eapply Hreqlt; eauto.
@@ -642,7 +643,7 @@ Section Ref.
     destruct (load_cache_slot_ok _ _ _ _ _ _ _ _ _ N1 (inv_slots_ok _ _ _ _ _ Hm) EL) as (L1 & L2 & L3 & L4 & L5 & L6 & L7 & L8 & L9).
     unfold inv2. cbn [fst slots seqs log nreq].
     set (qn := mkSeq rest [] si np 0 keep' [] stops 0 (nreq st)).
-    set (ext := [EvSubmit (nreq st) inputs keep']).
+    set (ext := [EvSubmit (nreq st) inputs keep' np stops]).
     destruct Hlid as [Hlt Huniq].
     assert (Hold : forall j q2, get_seq (seqs st) j = Some q2 -> q_slot q2 <> si).
     { intros j q2 E2 Hs. rewrite <- Hs in L3. rewrite (lo_inuse _ _ _ _ _ (mo_live _ _ _ _ _ Hm j q2 E2)) in L3. discriminate. }
@@ -665,17 +666,17 @@ Section Ref.
         * rewrite get_seq_set_same in E2 by lia. rewrite get_seq_set_other in E1 by auto. injection E2 as <-.
           specialize (Hrlt _ _ E1). unfold qn in Hs. cbn in Hs. lia.
         * rewrite get_seq_set_other in E1, E2 by auto. eapply (m2_req _ _ _ _ _ H2); eauto.
-    - intros r W0 kp Hsub j t vis Hj. rewrite samples_of_app, Hext, app_nil_r in Hj.
+    - intros r W0 kp np0 sp0 Hsub j t vis Hj. rewrite samples_of_app, Hext, app_nil_r in Hj.
       apply in_app_or in Hsub as [Hsub|[Hsub|[]]]; [eapply Hlok; eauto|].
-      injection Hsub as <- <- <-. rewrite (samples_of_fresh (log st) (nreq st)) in Hj by auto. destruct j; discriminate.
+      injection Hsub as <- <- <- <- <-. rewrite (samples_of_fresh (log st) (nreq st)) in Hj by auto. destruct j; discriminate.
     - split.
       + intros e He. apply in_app_or in He as [He|[<-|[]]]; [specialize (Hlt e He); lia|cbn; lia].
-      + intros r W0 kp W0' kp' A B.
+      + intros r W0 kp np0 sp0 W0' kp' np0' sp0' A B.
         apply in_app_or in A as [A|[A|[]]]; apply in_app_or in B as [B|[B|[]]].
         * eapply Huniq; eauto.
-        * injection B as <- <- <-. specialize (Hlt _ A). cbn in Hlt. lia.
-        * injection A as <- <- <-. specialize (Hlt _ B). cbn in Hlt. lia.
-        * injection A as <- <- <-. injection B as <- <-. auto.
+        * injection B as <- <- <- <- <-. specialize (Hlt _ A). cbn in Hlt. lia.
+        * injection A as <- <- <- <- <-. specialize (Hlt _ B). cbn in Hlt. lia.
+        * injection A as <- <- <- <- <-. injection B as <- <- <- <-. auto.
     - intros j q2 E2. destruct (Nat.eq_dec idx j) as [<-|Hj].
       + rewrite get_seq_set_same in E2 by lia. injection E2 as <-. cbn. lia.
       + rewrite get_seq_set_other in E2 by auto. specialize (Hrlt _ _ E2). lia.
@@ -689,8 +690,8 @@ Section Ref.
       - rewrite nth_overflow in H by (rewrite repeat_length; lia). discriminate. }
     unfold inv2, init. cbn [slots seqs log nreq]. split; [|split; [|split]].
     - constructor; [reflexivity| |]; intros; exfalso; eapply Hnone; eauto.
-    - intros r W0 keep [].
-    - split; [intros e []|intros r W0 keep W0' keep' []].
+    - intros r W0 keep np sp [].
+    - split; [intros e []|intros r W0 keep np sp W0' keep' np' sp' []].
     - intros idx q H. exfalso; eapply Hnone; eauto.
   Qed.
 
@@ -709,7 +710,7 @@ Section Ref.
   Lemma submit_logs st prompt np keep stops idx :
     snd (submit cfg st prompt np keep stops) = RSubmitted idx ->
     exists inputs keep', new_sequence cfg prompt keep = Ok (inputs, keep') /\
-      log (fst (submit cfg st prompt np keep stops)) = log st ++ [EvSubmit (nreq st) inputs keep'].
+      log (fst (submit cfg st prompt np keep stops)) = log st ++ [EvSubmit (nreq st) inputs keep' np stops].
   Proof.
     unfold submit. destruct (new_sequence cfg prompt keep) as [[inputs keep']| |]; try discriminate.
     destruct (first_free (seqs st) 0); [|discriminate].
